@@ -143,3 +143,25 @@ Theorem fragmentation_independent :
     fview (frames_loop patched e c fs) = fview (frames_loop patched e c [(base, B)]).
 Proof. exact fragmentation_independent_lemma. Qed.
 Print Assumptions fragmentation_independent.
+
+(* the same when the frames are spread over several PACKETS: a client that receives Handshake packets (its Handshake
+   receive key installed, no close pending) ends, packet after packet, where it ends on B in one frame of one packet: the
+   same close state / close code and the same TLS state, dispatched messages, outcomes, key callbacks *)
+Theorem fragmentation_independent_packets :
+  forall patched cfg0 orcs ops base B pkts,
+    let c := run_conn patched (conn_init true cfg0 orcs) ops in
+    q_closed c = None -> kget (q_rk c) EP_HANDSHAKE = true ->
+    bytes_ok (q_rbuf c) -> stream_of c EP_HANDSHAKE = flat base -> 0 <= base ->
+    bytes_ok B -> B <> [] -> base + Zlen B <= UINT_VAR_MAX -> Zlen B <= MAX_PENDING_CRYPTO ->
+    Forall (fun f : list (Z * list Z) => f <> []) pkts ->
+    Forall (fun f => slice_of B base (fst f) (snd f)) (concat pkts) ->
+    (forall o, base <= o < base + Zlen B -> Exists (covers o) (concat pkts)) ->
+    let W := frames_loop patched EP_HANDSHAKE c [(base, B)] in
+    let cf := run_conn patched c (map (fun f => (PT_HANDSHAKE, f)) pkts) in
+    match fst W with
+    | FOk => q_closed cf = None /\ tlsproj cf = tlsproj (snd W)
+    | FClose code => q_closed cf = Some code /\ tlsproj (forget cf) = tlsproj (forget (snd W))
+    | FExn _ => True
+    end.
+Proof. exact fragmentation_independent_packets_lemma. Qed.
+Print Assumptions fragmentation_independent_packets.
